@@ -54,7 +54,9 @@ ProfilesC06 == <<
   <<U(E, "ACS", <<2, 2>>), U(EL, "ACS", <<1, 1>>), X(<<1, 1>>)>>,                                  \* heat pump, one service
   <<U(G, "CAL", <<4, 4>>), U(G, "ACS", <<2, 2>>), O("CAL", <<2, 1>>), O("CAL", <<1, 0>>), O("ACS", <<1, 3>>), X(<<2, 2>>)>>, \* output of one service on two lines
   <<U(G, "COGEN", <<3, 3>>), P("EL_COGEN", <<1, 1>>), X(<<1, 1>>)>>,                               \* cogenerator: its only consumption is fuel
-  <<U(EL, "CAL", <<4, 4>>), U(EL, "REF", <<2, 2>>), O("CAL", <<3, 1>>), O("REF", <<-1, -3>>), O("ACS", <<2, 2>>), X(<<2, 2>>)>> >> \* heat recovery: output for a service without consumption
+  <<U(EL, "CAL", <<4, 4>>), U(EL, "REF", <<2, 2>>), O("CAL", <<3, 1>>), O("REF", <<-1, -3>>), O("ACS", <<2, 2>>), X(<<2, 2>>)>>, \* heat recovery: output for a service without consumption
+  <<U(EL, "NEPB", <<3, 3>>), X(<<1, 1>>)>>,                                                        \* a system whose only use is not an EPB service
+  <<U(EL, "CAL", <<2, 2>>), U(EL, "NEPB", <<1, 1>>), O("CAL", <<2, 2>>), X(<<1, 1>>)>> >>          \* one EPB service next to a non-EPB use
 
 Profiles == IF Family = "C05" THEN ProfilesC05 ELSE ProfilesC06
 NP == Len(Profiles)
